@@ -10,7 +10,7 @@ rows = []
 only = sys.argv[1:]
 for d in sorted(glob.glob(f"{HERE}/seeded/C*")):
     name = os.path.basename(d)
-    if only and not any(name.startswith(o) for o in only):
+    if only and not any(name.startswith(o) or o in name for o in only):
         continue
     meta = json.load(open(f"{d}/meta.json"))
     prop = meta["property"]
@@ -19,6 +19,7 @@ for d in sorted(glob.glob(f"{HERE}/seeded/C*")):
         r = subprocess.run([f"{HERE}/bin/nechk", "-property", prop, "-repo", "/repo", "-verif", HERE, "-no-evidence", "-no-replay"], capture_output=True, text=True, env=ENV)
     finally:
         subprocess.check_call(["git", "-C", "/repo", "checkout", "--", "."])
+        subprocess.check_call(["git", "-C", "/repo", "clean", "-fdq"])  # files a patch added (the tree was clean before)
     reports = [l.strip() for l in r.stdout.splitlines() if l.strip().startswith(("VIOLATED", "UNDECIDED"))]
     rules = sorted({l.split()[1] for l in reports})
     meta["detected"] = r.returncode == 1
